@@ -265,6 +265,21 @@ func digest() string {
 	for _, f := range []seccomp.FilterFlag{0, 1, 2, 3, 7, 0x8003} {
 		fmt.Fprintln(h, f.String())
 	}
+	// the text form of every action value (named ones, data-carrying ones, unnamed ones), plain and as part of a marshalled policy
+	for _, a := range []seccomp.Action{seccomp.ActionKillThread, seccomp.ActionKillProcess, seccomp.ActionTrap, seccomp.ActionErrno, seccomp.ActionTrace,
+		seccomp.ActionLog, seccomp.ActionAllow, seccomp.ActionUserNotify, seccomp.ActionErrno | 2, 0x12340000} {
+		t, err := a.MarshalText()
+		fmt.Fprintln(h, uint32(a), a.String(), string(t), err)
+		pol := seccomp.Policy{DefaultAction: a, Syscalls: []seccomp.SyscallGroup{{Names: []string{"read"}, Action: a}}}
+		j, err := json.Marshal(pol)
+		fmt.Fprintln(h, string(j), err)
+		j, err = json.Marshal(seccomp.Filter{NoNewPrivs: true, Flag: seccomp.FilterFlagTSync | seccomp.FilterFlagLog, Policy: pol})
+		fmt.Fprintln(h, string(j), err)
+	}
+	for _, o := range []seccomp.Operation{seccomp.Equal, seccomp.NotEqual, seccomp.GreaterThan, seccomp.GreaterOrEqual, seccomp.LessThan, seccomp.LessOrEqual,
+		seccomp.BitsSet, seccomp.BitsNotSet} {
+		fmt.Fprintln(h, string(o))
+	}
 	for _, n := range []string{"", "amd64", "X86_64", "arm64", "x32", "386"} {
 		a, err := arch.GetInfo(n)
 		if err == nil {
